@@ -54,9 +54,9 @@ ByteCases(zzdummy) ==
 
 Full == IOEnv.FULL = "1"
 Cases(zzdummy) ==
-  LET main == {<<ei, ii, "arg", "stdin", u, FALSE, FALSE>> : ei \in DOMAIN P.exprs, ii \in DOMAIN P.inputs, u \in BOOLEAN}
-      shapes == {<<ei, ii, es, is, u, a, l>> : ei \in (IF Full THEN DOMAIN P.exprs ELSE {1, 2, 9, 10, 18, 22, 35}),
-                                             ii \in (IF Full THEN DOMAIN P.inputs ELSE {1, 2, 7, 12, 13}),
+  LET main == {<<ei, ii, "arg", "stdin", u, FALSE, FALSE>> : ei \in 1..P.nexprs, ii \in 1..P.ninputs, u \in BOOLEAN}
+      shapes == {<<ei, ii, es, is, u, a, l>> : ei \in (IF Full THEN 1..P.nexprs ELSE {1, 2, 9, 10, 18, 22, 35}),
+                                             ii \in (IF Full THEN 1..P.ninputs ELSE {1, 2, 7, 12, 13}),
                                              es \in {"arg", "file", "missingfile"}, is \in {"stdin", "file", "missingfile"},
                                              u \in BOOLEAN, a \in BOOLEAN, l \in BOOLEAN}
       all == SetToSeq(main \cup shapes)
@@ -65,9 +65,17 @@ Cases(zzdummy) ==
                                          is \in {"stdin", "file"}})
       \* expression texts with line breaks through every expression source; input through /dev/stdin
       crlf == SetToSeq({<<ei, ii, es, u>> : ei \in {P.crlfexprs[k] : k \in DOMAIN P.crlfexprs}, ii \in {1, 2, 7}, es \in {"arg", "file"}, u \in BOOLEAN})
+      \* texts with trailing / leading characters that only Unicode calls white space, through every source (nothing is trimmed away)
+      Ix(s) == {s[k] : k \in DOMAIN s}
+      tail == SetToSeq({<<ei, 3, es, is, u, a>> : ei \in Ix(P.tailexprs), es \in {"arg", "file"}, is \in {"stdin", "file"}, u \in {FALSE}, a \in BOOLEAN}
+                       \cup {<<2, ii, es, is, u, FALSE>> : ii \in Ix(P.tailinputs), es \in {"arg", "file"}, is \in {"stdin", "file", "devstdin"}, u \in BOOLEAN})
+      \* results nested deeper than the deepest readable document
+      deep == SetToSeq({<<ei, ii, "arg", is, u, FALSE>> : ei \in Ix(P.deepexprs), ii \in Ix(P.deepinputs), is \in {"stdin", "file"}, u \in BOOLEAN})
       dev == SetToSeq({<<ei, ii, es, u>> : ei \in {1, 2, 9, 10, 18, 22, 35}, ii \in {1, 2, 7, 12, 13, 4}, es \in {"arg", "file"}, u \in BOOLEAN})
   IN [x \in DOMAIN all |-> Case(all[x][1], all[x][2], all[x][3], all[x][4], all[x][5], all[x][6], all[x][7])]
      \o ByteCases(0)
+     \o [x \in DOMAIN tail |-> Case(tail[x][1], tail[x][2], tail[x][3], tail[x][4], tail[x][5], tail[x][6], FALSE)]
+     \o [x \in DOMAIN deep |-> Case(deep[x][1], deep[x][2], deep[x][3], deep[x][4], deep[x][5], deep[x][6], FALSE)]
      \o [x \in DOMAIN crlf |-> Case(crlf[x][1], crlf[x][2], crlf[x][3], "stdin", crlf[x][4], FALSE, FALSE)]
      \o [x \in DOMAIN dev |-> Case(dev[x][1], dev[x][2], dev[x][3], "devstdin", dev[x][4], FALSE, FALSE)]
      \o [x \in DOMAIN big |-> CaseOf(P.exprs[big[x][1]], P.biginputs[big[x][2]], "arg", big[x][4], FALSE, FALSE, FALSE, big[x][3])]
